@@ -69,6 +69,10 @@ def run(repo, res):
         construct = f"discrete.BeliefPropagation.outside_pass ignore_oldest_root operand `{U(Defs(f).inline(other))}`"
         if not isinstance(c.ops[0], (ast.Eq, ast.NotEq, ast.In, ast.NotIn)):
             res.bad("R38.1", construct, f"ordering comparison `{U(c)}` between a node id and another value (node ids are opaque)", repo.loc(f, c))
+        elif isinstance(c.ops[0], (ast.In, ast.NotIn)) and not has_time:
+            res.bad("R38.1", construct, f"`{U(c)}`: membership in `{joined}` ignores every node of that collection, not exactly the one root with the greatest input time", repo.loc(f, c))
+        elif not has_time and not has_count:
+            res.bad("R38.1", construct, f"`{U(c)}`: the ignored node is `{joined}`, which is not derived from the node-time column through max/argmax: it is not 'the oldest root'", repo.loc(f, c))
         elif has_count and not has_time:
             res.bad("R38.1", construct, f"`{U(c)}`: the ignored node is `{joined}`, derived from a count and not from node times; renumbering nodes changes which messages are ignored", repo.loc(f, c))
         elif has_time and not has_count:
@@ -100,6 +104,8 @@ def run(repo, res):
 
 
 VARIANTS = [
+    dict(name="ignore-every-root", mod="discrete", expect="fire", rule="R38.1", old="                    if edge.parent == self.ts.num_nodes - 1:", new="                    if edge.parent in self.root_spans:"),
+    dict(name="oldest-by-span", mod="discrete", expect="fire", rule="R38.1", old="                    if edge.parent == self.ts.num_nodes - 1:", new="                    if edge.parent == max(self.root_spans, key=self.root_spans.get, default=None):"),
     dict(name="time-based-selection", mod="discrete", expect="silent",
          old="                    if edge.parent == self.ts.num_nodes - 1:", new="                    if edge.parent == np.argmax(self.ts.nodes_time):"),
     dict(name="other-count", mod="discrete", expect="fire", rule="R38.1",
